@@ -1,3 +1,4 @@
+(* include: lua_ser.inc.ml srv_case.inc.ml *)
 (* C13 driver. Answer line: <model>\t<spec>\t<class> *)
 let () = register "c13.isutf8" (fun line ->
   let bs = bytes_of_hex (String.trim line) in
@@ -16,5 +17,75 @@ let () = register "c13.convert" (fun line ->
     let m = convert (fun _ -> orc) bs in
     hex_of_bytes m ^ "\t" ^ hex_of_bytes bs ^ "\t" ^ (if List.exists is_two_byte cps then "two_byte" else "-")
   | _ -> "BAD-CASE")
+
+(* ---------------------------------------------------------------- comment map / hover (Model/Comments.v, Model/Hover.v) *)
+let res_s f = function Ok a -> f a | Fault _ -> "FAULT" | OutOfFuel -> "OUT-OF-FUEL"
+
+(* canonical comment map: entries by ascending key, `key:head:short:[line.col=hex,...]` joined by ';' *)
+let cmap_s (es : (z * cinfo) list) : string =
+  let keys = List.sort_uniq compare (List.map (fun (k, _) -> int_of_z k) es) in
+  let one k =
+    match cm_find (z_of_int k) es None with
+    | None -> ""
+    | Some ci ->
+      Printf.sprintf "%d:%s:%s:[%s]" k (bool_s ci.ci_head) (bool_s ci.ci_short)
+        (String.concat "," (List.map (fun c -> Printf.sprintf "%s.%s=%s" (zs c.cl_line) (zs c.cl_col) (hex_of_bytes c.cl_str)) ci.ci_lines)) in
+  if keys = [] then "-" else String.concat ";" (List.map one keys)
+
+(* case: "<hex file bytes>". model = the map BeginAnalyze returns *)
+let () = register "c13.cmap" (fun line ->
+  let bs = bytes_of_hex (String.trim line) in
+  oracle_used := false;
+  let r = comment_writes gbk_oracle classify_tok bs in
+  let m = res_s (function None -> "SKIP-TOOMANY" | Some es -> cmap_s es) r in
+  (if !oracle_used then "SKIP-ORACLE" else m) ^ "\t-\t-")
+
+(* case: "<hex comment text>": the two clean-up functions, `final=<hex> hover=<hex>` *)
+let () = register "c13.cleanup" (fun line ->
+  let bs = bytes_of_hex (String.trim line) in
+  Printf.sprintf "final=%s hover=%s\t-\t-" (hex_of_bytes (final_comment bs)) (hex_of_bytes (get_str_comment bs)))
+
+let skip_s = function
+  | SkTooMany -> "SKIP-TOOMANY" | SkNoIdent -> "SKIP-NOIDENT" | SkNoDecl -> "SKIP-NODECL" | SkAmbiguous -> "SKIP-AMBIG"
+  | SkValue -> "SKIP-VALUE" | SkFuncBody -> "SKIP-FUNCBODY" | SkAnnotation -> "SKIP-ANNOT" | SkFlagged -> "SKIP-FLAGGED" | SkBom -> "SKIP-BOM"
+
+(* case: srv.script format (one file, steps open + hover...) followed by the oracle field `D:<hexin>=<hexout|ERR>;...`
+   (GBK decodings, by golang.org/x/text directly, of the texts the generator announced in its `G:` items).
+   A documentation text that fails the UTF-8 detector and is not in the table makes the case SKIP-ORACLE. *)
+let () = register "c13.hover" (fun line ->
+  let c = parse_srv_case line in
+  let table = List.concat_map (fun it ->
+      if String.length it > 2 && String.sub it 0 2 = "D:" && it <> "D:-" then
+        List.filter_map (fun kv -> match String.split_on_char '=' kv with
+            | [k; v] -> Some (bytes_of_hex k, if v = "ERR" then None else Some (bytes_of_hex v))
+            | _ -> None) (String.split_on_char ';' (String.sub it 2 (String.length it - 2)))
+      else []) (split_ws line) in
+  oracle_used := false;
+  let two_byte = ref false in
+  let gbk s = (two_byte := true;
+               match List.assoc_opt s table with Some r -> r | None -> (oracle_used := true; None)) in
+  let cls = ref [] in
+  let addc c = if not (List.mem c !cls) then cls := c :: !cls in
+  let show r = res_s (function HText t -> "hover=" ^ hex_of_bytes t | HSkip r -> skip_s r) r in
+  let in_fragment = ref true in
+  let outs = List.filter_map (fun st -> match st with
+      | StHover (i, l, col) ->
+        let (rel, bs) = List.nth c.files i in
+        let file = bytes_of_string rel in
+        let r = hover gbk_oracle classify_tok gbk file bs (z_of_int l) (z_of_int col) in
+        (* the property's demand: the label, then the attached comment (trailing, else the block above) cleaned up
+           line by line, bytes unchanged - only stated when every comment of the file is a `--` line comment *)
+        let sp = hover_with gbk_oracle classify_tok
+            (fun es ln ->
+               if not (List.for_all (fun (_, ci) -> ci.ci_short) es && keys_nodup es) then in_fragment := false;
+               if List.exists leading_empty es then addc "leading_empty";
+               get_str_comment (spec_attach es ln)) file bs (z_of_int l) (z_of_int col) in
+        Some (show r, show sp)
+      | _ -> None) c.steps in
+  let souts = List.map snd outs and outs = List.map fst outs in
+  if !two_byte then addc "two_byte";
+  let skips = List.filter (fun o -> String.length o >= 4 && String.sub o 0 4 = "SKIP") outs in
+  let m = if !oracle_used then "SKIP-ORACLE" else match skips with s :: _ -> s | [] -> String.concat " | " outs in
+  m ^ "\t" ^ (if !in_fragment then String.concat " | " souts else "-") ^ "\t" ^ (match !cls with [] -> "-" | l -> String.concat "," (List.sort compare l)))
 
 let () = main ()
